@@ -45,6 +45,11 @@ type Graph struct {
 	Insts   []Instance // in topological order
 	ExtIn   int
 	ExtOuts [][2]int // external output k = output Idx of instance Inst: [inst, idx]
+	// LinkMode: order in which the link definitions are written (0 consumers' inputs then external outputs,
+	// 1 the reverse, 2 external outputs first, 3 rotated by LinkRot); CPNameMode: how the processors of a
+	// partition are named (0 cp0 cp1 ... in topological order, 1 reversed, 2 rotated) — the assembler
+	// sorts processors by name, the meaning of the graph does not depend on either
+	LinkMode, LinkRot, CPNameMode int
 }
 
 func (g *Graph) Mask() uint64 {
@@ -168,6 +173,9 @@ func Generate(t *simrt.Tape) *Graph {
 			g.ExtOuts = append(g.ExtOuts, [2]int{o.inst, o.idx})
 		}
 	}
+	g.LinkMode = t.Draw(4)
+	g.LinkRot = t.Draw(8)
+	g.CPNameMode = t.Draw(3)
 	return g
 }
 
@@ -249,31 +257,56 @@ func (g *Graph) BASM(p Partition) string {
 		fmt.Fprintf(&b, "%%meta fidef %s fragment:%s\n", in.Name, g.Frags[in.Frag].Name)
 	}
 	ln := 0
-	link := func(srcFI string, srcType string, srcIdx int, dstFI string, dstType string, dstIdx int) {
+	var inner, outer []string
+	link := func(to *[]string, srcFI string, srcType string, srcIdx int, dstFI string, dstType string, dstIdx int) {
 		name := fmt.Sprintf("lk%d", ln)
 		ln++
-		fmt.Fprintf(&b, "%%meta filinkdef %s type:fl\n", name)
-		fmt.Fprintf(&b, "%%meta filinkatt %s fi:%s, type:%s, index:%d\n", name, srcFI, srcType, srcIdx)
-		fmt.Fprintf(&b, "%%meta filinkatt %s fi:%s, type:%s, index:%d\n", name, dstFI, dstType, dstIdx)
+		*to = append(*to, fmt.Sprintf("%%meta filinkdef %s type:fl\n", name)+
+			fmt.Sprintf("%%meta filinkatt %s fi:%s, type:%s, index:%d\n", name, srcFI, srcType, srcIdx)+
+			fmt.Sprintf("%%meta filinkatt %s fi:%s, type:%s, index:%d\n", name, dstFI, dstType, dstIdx))
 	}
 	for _, in := range g.Insts {
 		for j, s := range in.In {
 			if s.Inst == -1 {
-				link("ext", "input", s.Idx, in.Name, "input", j)
+				link(&inner, "ext", "input", s.Idx, in.Name, "input", j)
 			} else {
-				link(g.Insts[s.Inst].Name, "output", s.Idx, in.Name, "input", j)
+				link(&inner, g.Insts[s.Inst].Name, "output", s.Idx, in.Name, "input", j)
 			}
 		}
 	}
 	for k, eo := range g.ExtOuts {
-		link(g.Insts[eo[0]].Name, "output", eo[1], "ext", "output", k)
+		link(&outer, g.Insts[eo[0]].Name, "output", eo[1], "ext", "output", k)
+	}
+	all := append(append([]string{}, inner...), outer...)
+	switch g.LinkMode {
+	case 1:
+		for i, j := 0, len(all)-1; i < j; i, j = i+1, j-1 {
+			all[i], all[j] = all[j], all[i]
+		}
+	case 2:
+		all = append(append([]string{}, outer...), inner...)
+	case 3:
+		if len(all) > 0 {
+			r := g.LinkRot % len(all)
+			all = append(append([]string{}, all[r:]...), all[:r]...)
+		}
+	}
+	for _, l := range all {
+		b.WriteString(l)
 	}
 	for gi, grp := range p {
 		var names []string
 		for _, i := range grp {
 			names = append(names, g.Insts[i].Name)
 		}
-		fmt.Fprintf(&b, "%%meta cpdef cp%d fragcollapse:%s\n", gi, strings.Join(names, ":"))
+		cpn := gi
+		switch g.CPNameMode {
+		case 1:
+			cpn = len(p) - 1 - gi
+		case 2:
+			cpn = (gi + 1) % len(p)
+		}
+		fmt.Fprintf(&b, "%%meta cpdef cp%d fragcollapse:%s\n", cpn, strings.Join(names, ":"))
 	}
 	fmt.Fprintf(&b, "%%meta bmdef global registersize:%d\n%%meta bmdef global iomode:sync\n", g.Rsize)
 	return b.String()
